@@ -50,6 +50,13 @@ CLAIMED['C01'] = dict(design='5 (C01), 2', note='trusted: MIRSE MIR semantics + 
     'grapheme model over Sigma_g; tokenizers built by interpreting the real constructors on a grid of concrete configurations; texts are '
     'symbolic characters and templates that contain / nearly contain special-token spellings; HashMap order fixed; decoding with special '
     'tokens kept is compared with prefix spellings + text + suffix spellings')
+CLAIMED['C03'] = dict(design='5 (C03), 2', note='trusted: MIRSE MIR semantics + std models (BinaryHeap by its ordering contract), regex model of the word '
+    'pattern; tokenizer built by the real BPETokenizer::new with the msgpack load stubbed by an in-memory table; tables are a fixed family of 13 '
+    'well-formed tables (chains, competing / overlapping merges), texts symbolic; oracle = reference greedy BPE on the same symbolic bytes; '
+    'multi-level-merge defect repaired by fix commit f33abb5')
+CLAIMED['C02'] = dict(design='5 (C02), 2', note='same encoding as C03 plus max_vocab_size truncation and prefix/suffix configs; oracle: decode(encode(s)) == s '
+    'minus trailing whitespace, ids < vocab_size, decoding succeeds (valid UTF-8); vector reads with symbolic ids are if-then-else terms over '
+    'the feasible entries')
 NOT_YET = 'check not built yet in this session (work in progress, see DESIGN.md section 6 for the order)'
 NA = {}
 
